@@ -339,6 +339,21 @@ ADDENDA5 = {
     "C20": " Round 5: module faults under every import form (the error names the module, not the importer's alias).",
 }
 
+ADDENDA6 = {
+    "C01": " Inline pattern flags the host's compiler refuses with an exception of its own.",
+    "C02": " Comparison chains evaluated repeatedly from one parse: all 36 operator pairs inside a function, a loop, a comprehension and a while loop (an evaluation that stopped early must not leak into the next).",
+    "C03": " The same use of a name evaluated again under a nearer binding (conditional def, def after a closure was called, a built-in shadowed after its first use).",
+    "C04": " Comprehensions re-entered by recursion from their source, value and condition.",
+    "C06": " NULL, booleans and numbers made by natives from text (parse_json) and arithmetic at the edge of the decimal range are reflexive and symmetric towards the constants.",
+    "C08": " The text of a value whose earlier rendering was interrupted (a member whose _str_ failed and was removed since; a rendering begun when the stack was nearly used up).",
+    "C11": " One require statement evaluated several times with a module spec held in a variable (loop, function body, while loop; every form; load log).",
+    "C12": " Seeded draws over spans beyond the generator's number of states.",
+    "C14": " Line breaks and tabs written raw inside string literals; programs typed at the REPL over several lines.",
+    "C15": " find / find_last under names the library uses for its defaults, bound by the caller.",
+    "C18": " Interpolation is re-entrant (a placeholder whose expression interpolates again).",
+    "C19": " Collections that were walked, then edited in place by a documented mutator, then handed to the functions.",
+}
+
 
 def main():
     checks = []
@@ -347,7 +362,7 @@ def main():
         if pid not in CHECKS:
             continue
         mods, tech, text, note, ref = CHECKS[pid]
-        text = text + ADDENDA.get(pid, "") + ADDENDA3.get(pid, "") + ADDENDA4.get(pid, "") + ADDENDA5.get(pid, "")
+        text = text + ADDENDA.get(pid, "") + ADDENDA3.get(pid, "") + ADDENDA4.get(pid, "") + ADDENDA5.get(pid, "") + ADDENDA6.get(pid, "")
         if pid == "C03":
             mods = mods + ["Env_Trace.tla"]
             text = text + C03_EXTRA
